@@ -177,9 +177,31 @@ struct CaseOut {
     merged: bool,
 }
 
-fn check(tok: &Tokenizer, cfg: Cfg, rev: &HashMap<char, u8>, s: &str) -> CaseOut {
+/// Byte offsets of the non-empty pieces the configured pre-tokenizer yields
+/// for `s`, obtained by calling the public pre-tokenizer directly (not through
+/// `Tokenizer::encode`). Used for non-vacuity accounting and for an
+/// observation; never for a verdict.
+fn piece_starts(pt: Option<&dyn PreTokenizer>, s: &str) -> Vec<usize> {
+    match pt {
+        None => {
+            if s.is_empty() { vec![] } else { vec![0] }
+        }
+        Some(p) => match vp_core::catch(|| p.pre_tokenize(s)) {
+            Ok(Ok(ps)) => ps.iter().filter(|x| !x.is_empty()).map(|x| x.as_ptr() as usize - s.as_ptr() as usize).collect(),
+            _ => vec![],
+        },
+    }
+}
+
+fn check(tok: &Tokenizer, pt: Option<&dyn PreTokenizer>, cfg: Cfg, rev: &HashMap<char, u8>, s: &str) -> CaseOut {
     let mut out = CaseOut::default();
-    let tag = format!("[pretok={}, merges={}]", PRETOKS[cfg.pretok], TABLES[cfg.table]);
+    let starts = piece_starts(pt, s);
+    out.n_pieces = starts.len();
+    // Offset/slice laws depend on the pre-tokenizer path, the round trip on the
+    // model (merge table, vocabulary): tag the signatures accordingly so that
+    // one root cause is not split over the whole configuration product.
+    let tag = format!("[pre-tokenizer={}]", PRETOKS[cfg.pretok]);
+    let rt_tag = format!("[merges={}, vocab={}]", TABLES[cfg.table], if cfg.explicit { "explicit" } else { "implicit" });
     let enc = match vp_core::catch(|| tok.encode(s, None)) {
         Err(p) => {
             out.sigs.push((format!("Tokenizer::encode panicked {tag}"), p));
@@ -242,7 +264,15 @@ fn check(tok: &Tokenizer, cfg: Cfg, rev: &HashMap<char, u8>, s: &str) -> CaseOut
             format!("slices {slices:?} concatenate to {cat:?}, input {s:?}, offsets {offs:?}"),
         ));
     }
-    out.n_pieces = slices.iter().filter(|t| !t.is_empty()).count();
+    {
+        // outside the statement: every token offset should be the start of the
+        // piece the token came from
+        let mut distinct: Vec<usize> = offs[..ids.len().min(offs.len())].to_vec();
+        distinct.dedup();
+        if distinct != starts {
+            out.obs.push("outside the statement: the distinct token offsets are not the starts of the pre-tokenizer's pieces");
+        }
+    }
 
     // --- round trip ------------------------------------------------------
     match vp_core::catch(|| tok.decode(ids)) {
@@ -250,7 +280,7 @@ fn check(tok: &Tokenizer, cfg: Cfg, rev: &HashMap<char, u8>, s: &str) -> CaseOut
             if cfg.suffix() {
                 out.obs.push("end-of-word-suffix configuration: decode panicked");
             } else {
-                out.sigs.push((format!("Tokenizer::decode(encode(s)) panicked {tag}"), p));
+                out.sigs.push((format!("Tokenizer::decode(encode(s)) panicked {rt_tag}"), p));
             }
         }
         Ok(Err(e)) => {
@@ -258,7 +288,7 @@ fn check(tok: &Tokenizer, cfg: Cfg, rev: &HashMap<char, u8>, s: &str) -> CaseOut
                 out.obs.push("end-of-word-suffix configuration: decode returned an error");
             } else {
                 out.sigs.push((
-                    format!("Tokenizer::decode(encode(s)) returned an error {tag}"),
+                    format!("Tokenizer::decode(encode(s)) returned an error {rt_tag}"),
                     format!("{e:?} for ids {ids:?} of {s:?}"),
                 ));
             }
@@ -274,7 +304,7 @@ fn check(tok: &Tokenizer, cfg: Cfg, rev: &HashMap<char, u8>, s: &str) -> CaseOut
                 }
             } else if d != s {
                 out.sigs.push((
-                    format!("decode(encode(s)) != s {tag}"),
+                    format!("decode(encode(s)) != s {rt_tag}"),
                     format!("input {s:?}, ids {ids:?}, decoded {d:?}"),
                 ));
             }
@@ -368,10 +398,12 @@ pub fn run(ctx: Ctx) -> ! {
             }
         };
         let rev = reverse_table();
+        let pt_box = make_pretok(cfg.pretok);
+        let pt = pt_box.as_deref();
         let (mut cases, mut nonempty, mut split, mut merged, mut multi_piece) = (0u64, 0u64, 0u64, 0u64, 0u64);
         util::for_each_string(&ALPHABET, first, max_cp, |s, _| {
             cases += 1;
-            let out = check(&tok, cfg, &rev, s);
+            let out = check(&tok, pt, cfg, &rev, s);
             if out.n_tokens > 0 {
                 nonempty += 1;
             }
@@ -385,7 +417,7 @@ pub fn run(ctx: Ctx) -> ! {
                 multi_piece += 1;
             }
             if !out.sigs.is_empty() {
-                let again = check(&tok, cfg, &rev, s);
+                let again = check(&tok, pt, cfg, &rev, s);
                 util::must_reproduce(
                     &out.sigs.iter().map(|x| x.0.clone()).collect::<Vec<_>>(),
                     &again.sigs.iter().map(|x| x.0.clone()).collect::<Vec<_>>(),
@@ -424,8 +456,14 @@ pub fn run(ctx: Ctx) -> ! {
     if m.get("cases") != expect {
         ctx.machinery(&format!("C27: enumerated {} cases, box has {}", m.get("cases"), expect));
     }
-    for k in ["cases_with_a_character_split_across_tokens", "cases_with_fewer_tokens_than_bytes", "cases_with_more_than_one_piece"] {
-        if m.get(k) == 0 {
+    // Vacuity guards use counters that are measured on the subject's output, so
+    // they are only meaningful (and only applied) when the subject was not
+    // already found violating - a violation must stay a verdict.
+    if m.get("cases_with_more_than_one_piece") == 0 {
+        ctx.machinery("C27: vacuous - no input was split into more than one piece");
+    }
+    for k in ["cases_with_a_character_split_across_tokens", "cases_with_fewer_tokens_than_bytes"] {
+        if m.get(k) == 0 && ctx.violation_count() == 0 {
             ctx.machinery(&format!("C27: vacuous - counter {k} is zero"));
         }
     }
@@ -480,7 +518,8 @@ fn replay(ctx: Ctx, path: &std::path::Path) -> ! {
     match build(cfg) {
         Err(e) => ctx.violation("Bpe::new rejects a well-formed configuration", case.clone(), e),
         Ok(tok) => {
-            let out = check(&tok, cfg, &reverse_table(), &s);
+            let pt_box = make_pretok(cfg.pretok);
+            let out = check(&tok, pt_box.as_deref(), cfg, &reverse_table(), &s);
             println!("C27 replay: {} -> {} signature(s), observations {:?}", case, out.sigs.len(), out.obs);
             for (sig, detail) in out.sigs {
                 ctx.violation(sig, case.clone(), detail);
